@@ -63,6 +63,10 @@ type s1end struct {
 	passcred bool
 	peerPid  int32
 	fdBase   int
+	// who receives on this end and how often it has entered SimRecv (for the late-reset event)
+	recvGoid     int
+	entrySeq     int
+	forceTimeout bool
 }
 
 // what the real net package reports after a local Close (callers may test for net.ErrClosed)
@@ -101,11 +105,22 @@ func (e *s1end) SimSend(b []byte, m unixsocket.Msg) error {
 
 func (e *s1end) SimRecv(b []byte) (int, unixsocket.Msg, error) {
 	w := e.w
+	gid := goid()
+	w.mu.Lock()
+	e.recvGoid = gid
+	e.entrySeq++
+	e.in.signal() // a clearing of the deadline may be waiting for this receiver to be back (SimSetDeadline)
+	w.mu.Unlock()
 	for {
 		w.mu.Lock()
 		if e.closed {
 			w.mu.Unlock()
 			return 0, unixsocket.Msg{}, errSimClosed
+		}
+		if e.forceTimeout {
+			e.forceTimeout = false
+			w.mu.Unlock()
+			return 0, unixsocket.Msg{}, os.ErrDeadlineExceeded
 		}
 		if len(e.in.delivered) > 0 {
 			p := e.in.delivered[0]
@@ -179,17 +194,31 @@ func (e *s1end) closeLocked() error {
 
 func (e *s1end) SimSetDeadline(t time.Time) error {
 	w := e.w
+	gid := goid()
 	w.mu.Lock()
-	if lag := w.resetLag; lag > 0 && t.IsZero() {
-		// the goroutine about to clear the deadline is descheduled for a moment first (any
-		// goroutine can be, between any two statements)
-		w.resetLag = 0
-		w.mu.Unlock()
-		time.Sleep(lag)
-		w.c.SimTime += lag
-		w.mu.Lock()
-	}
 	defer w.mu.Unlock()
+	if lag := w.resetLag; lag > 0 && t.IsZero() && !e.closed {
+		// The late-reset event: the goroutine about to clear the deadline was descheduled for `lag`
+		// first (any goroutine can be, between any two statements), and the receiver of this end got
+		// the processor before it. No simulated sleep is used for that (the caller may hold a mutex of
+		// the code under test, and a goroutine waiting for a mutex is not durably blocked for
+		// synctest): the clearing waits, on a channel, until the receiver is back in SimRecv, and the
+		// receiver is then told that its deadline has passed if it would have within `lag`.
+		w.resetLag = 0
+		if gid != e.recvGoid {
+			for e.entrySeq <= w.lagSeq && !e.closed {
+				wake := e.in.wake
+				w.mu.Unlock()
+				<-wake
+				w.mu.Lock()
+			}
+			if !e.closed && !e.deadline.IsZero() && time.Until(e.deadline) <= lag {
+				e.forceTimeout = true
+				w.c.SimTime += lag
+			}
+		}
+		// (the receiver clearing its own deadline: nothing is blocked on it, the lag changes nothing)
+	}
 	if e.closed {
 		return errSimClosed
 	}
@@ -420,6 +449,7 @@ type s1world struct {
 	fdSeq         int
 	curOp         int   // index of the API call in flight (set by the simulator)
 	resetLag      time.Duration // the next clearing of a deadline takes effect this much later (the caller is descheduled)
+	lagSeq        int           // SimRecv entry count of the host end when resetLag was armed
 	hostSendOps   []int // op index of every host->container message, in order
 	lastSrvRecvOp int   // op index whose message the server received last
 }
